@@ -354,6 +354,46 @@ Proof.
 Qed.
 Print Assumptions C01_errors_file_header_rs.
 
+Theorem C01_errors_file_whole_rs :
+  forall (algo : N) (mb : nat), mb <= 255 -> forall hash hlen, (forall m, length (hash m) = hlen) ->
+  forall bdec (o : option byte) fast ik ies, 1 <= ik -> ik + ies <= 255 -> forall idec,
+  PipelineP.dec_complete_hyp (option byte) (pchk algo mb) bdec (penc algo mb) o (pcap mb) (pwf mb) ->
+  forall mu, (forall s c, 1 <= mu s c <= mb) -> (forall s c, 1 <= hlen + (mb - mu s c)) -> forall window,
+  let intra := C03Inst.intra_w algo ik ies idec in
+  let fenc := C03Inst.fenc_w algo ik ies in
+  let track := C03Inst.track_w algo mb hash mu in
+  let blocks := C03Inst.blocksW_pipe algo mb hash hlen bdec o fast mu in
+  forall marker delim ignore_size look preamble (T : list (list byte * list byte)) dmg want L,
+  L <> [] -> marker <> [] ->
+  StreamP.clean_pieces marker (preamble :: map (Stream.gen_entry delim fenc track) T) ->
+  (forall f, In f T ->
+     Stream.prefixb delim (fst f ++ delim) = false /\ StreamP.clean_mid delim (fst f) /\ StreamP.clean_mid delim (StreamP.size_of f) /\
+     StreamP.clean_mid delim (fenc (fst f)) /\ StreamP.clean_mid delim (fenc (StreamP.size_of f))) ->
+  (forall f, In f T -> (N.of_nat (length (snd f)) < 10 ^ 4300)%N) ->
+  (forall f, In f T -> Stream.has_nul (fst f) = false) ->
+  NoDup (map fst T) ->
+  (forall f, In f T -> look (fst f) = Some (dmg f)) ->
+  (forall f, In f T -> C01Inst.found_w algo mb hash o mu (snd f) (dmg f) (want f)) ->
+  (forall f, In f T -> StreamP.meta_len delim (fst f) (StreamP.size_of f) (fenc (fst f)) (fenc (StreamP.size_of f)) <= window) ->
+  let Tl := filter (fun f => Select.listed L (fst f)) T in
+  exists outs k,
+    Select.run_w_sel marker delim ignore_size look intra L window blocks (Stream.generate marker delim fenc track preamble T)
+      = Stream.Done (Stream.mkC (length Tl) k k 0 0) outs 0 /\ k <= length Tl /\
+    (forall p b, In (p, b) outs -> exists f, In f T /\ Select.listed L (fst f) = true /\ p = fst f /\ b = want f) /\
+    (forall f, In f T -> Select.listed L (fst f) = true -> dmg f <> want f -> In (fst f, want f) outs).
+Proof.
+  intros algo mb Hmb hash hlen HL bdec o fast ik ies K1 K2 idec DC mu MU TP window intra fenc track blocks
+         marker delim ignore_size look preamble T dmg want L HLn Hm U1 U2 SZ NN ND LK FW MF Tl.
+  destruct (C01Inst.sel_repair_whole algo mb Hmb hash hlen HL bdec o fast ik ies K1 K2 idec DC mu MU TP window
+              marker delim ignore_size look preamble T dmg want L HLn Hm U1 U2 SZ NN ND LK FW MF) as (rs & F & E).
+  destruct (C01Inst.rel_summary (SelectP.Tsel T L) want _ rs _ F E) as (outs & k & E' & Hk & O & I).
+  exists outs, k. split; [exact E'|]. split; [exact Hk|]. split.
+  - intros p b H. destruct (O p b H) as (f & Hf & E1 & E2). unfold SelectP.Tsel in Hf. apply filter_In in Hf as [Hf1 Hf2].
+    exists f. auto.
+  - intros f Hf Hl Hd. apply I; [|exact Hd]. unfold SelectP.Tsel. apply filter_In. split; assumption.
+Qed.
+Print Assumptions C01_errors_file_whole_rs.
+
 (* non-vacuity of the restriction: a two-name list, one path in it, one not *)
 Example C01_listed_example :
   Select.listed [[x61]; [x62; x63]] [x62; x63] = true /\ Select.listed [[x61]; [x62; x63]] [x62] = false /\ Select.active [[x61]] = true.
